@@ -19,4 +19,4 @@ var VerifGetStrip = getStrip
 
 type VerifFilterRuleList = filterRuleList
 
-func VerifMatches(l *filterRuleList, name string) bool { return l.matches(name) }
+func VerifMatches(l *filterRuleList, name string, isDir bool) bool { return l.matches(name, isDir) }
